@@ -246,6 +246,9 @@ def update_traits_for_resource_provider(req):
     except exception.ConcurrentUpdateDetected as e:
         raise webob.exc.HTTPConflict(e.format_message(),
                                      comment=errors.CONCURRENT_UPDATE)
+    except exception.TraitNotFound as e:
+        # Deleted by another request after it had been looked up.
+        raise webob.exc.HTTPBadRequest(e.format_message())
 
     response_body, last_modified = _serialize_traits(trait_objs, want_version)
     response_body[
